@@ -25,8 +25,10 @@ type pipeConn struct {
 	waiting int    // Read calls parked on an empty buffer
 	closed  bool   // Close was called
 	closes  int    // number of Close calls
-	failing error  // if set: every Read on an empty buffer fails with it at once
+	failing error  // if set: a Read on an empty buffer fails with it at once ...
+	failN   int    // ... this many times (-1 = for good)
 	nreads  int    // completed Read calls that returned data or an error
+	nbytes  int    // bytes handed to the client so far
 
 	writes    [][]byte             // client -> peer, one entry per Write call
 	onWrite   func(w []byte)       // called (without the lock) after a write was recorded
@@ -65,13 +67,21 @@ func (p *pipeConn) Read(b []byte) (int, error) {
 		copy(b, p.rbuf[:n])
 		p.rbuf = p.rbuf[n:]
 		p.nreads++
+		p.nbytes += n
 		p.cond.Broadcast()
 		return n, nil
 	}
 	p.nreads++
 	p.cond.Broadcast()
 	if p.failing != nil {
-		return 0, p.failing
+		err := p.failing
+		if p.failN > 0 {
+			p.failN--
+			if p.failN == 0 {
+				p.failing = nil
+			}
+		}
+		return 0, err
 	}
 	return 0, errTransportClosed
 }
@@ -189,6 +199,12 @@ func (p *pipeConn) NWrites() int {
 	return len(p.writes)
 }
 
+func (p *pipeConn) BytesRead() int {
+	p.mu.Lock()
+	defer p.mu.Unlock()
+	return p.nbytes
+}
+
 func (p *pipeConn) Closes() int {
 	p.mu.Lock()
 	defer p.mu.Unlock()
@@ -204,9 +220,11 @@ func (p *pipeConn) Release() {
 	close(rel)
 }
 
-func (p *pipeConn) SetFailing(err error) {
+// SetFailing: Reads on an empty buffer fail n times (n < 0: for good)
+func (p *pipeConn) SetFailing(err error, n int) {
 	p.mu.Lock()
 	p.failing = err
+	p.failN = n
 	p.cond.Broadcast()
 	p.mu.Unlock()
 }
